@@ -162,6 +162,8 @@ pub fn tcp_case(malformed: bool) -> impl Strategy<Value = TcpCase> {
                 raw_tail.push(0);
             }
         }
-        TcpCase { link, ip, tcp, opts, raw_tail }
+        // a third of the Ethernet frames look as on the wire (padding to 60 bytes, or padding + FCS), derived from generated bits
+        let wire = (tcp.seq ^ tcp.ack) as u8 % 6;
+        TcpCase { link, ip, tcp, opts, raw_tail, wire: if wire < 3 { 0 } else { wire } }
     })
 }
